@@ -1962,6 +1962,7 @@ int user_parser (char *buff) {
    * last_verb.
    */
   strncpy (verb_buff, user_verb, MAX_VERB_BUFF - 1);
+  verb_buff[MAX_VERB_BUFF - 1] = '\0';	/* strncpy() does not terminate a verb of MAX_VERB_BUFF - 1 or more characters */
   if (p)
     {
       ptrdiff_t pos;
